@@ -29,7 +29,11 @@ def main():
         if pid not in props.PROPS:
             print(f"unknown property {pid}")
             return 2
-        return props.PROPS[pid](tier)
+        rc = props.PROPS[pid](tier)
+        if tier == 'thorough' and not os.environ.get('VERIF_KEEP'):
+            # thorough workspaces are large (up to 4e5 fields, three profiles): drop sources and build outputs again
+            B.clean_workspaces(lambda ws: 'thorough' in ws or ws in ('u32full', 'u32put', 'consts32', 'builder-c16', 'consts-c16'))
+        return rc
     except B.MachineryError as e:
         print(f"MACHINERY-FAILURE: {e}", file=sys.stderr)
         return 2
